@@ -257,6 +257,23 @@ def configure(ignored, way, explicit_false):
     if os.path.exists(cfgfile):
         os.remove(cfgfile)
     argv = []
+    if way == "extension":
+        # the order of the server extension: configured ignorables are processed as flags first, the Ignore mapping is applied afterwards
+        from nbdime.config import Namespace
+        from nbdime.ignorables import diff_ignorables
+        from nbdime.diffing.notebooks import set_notebook_diff_ignores
+        order = [c for c in CATS if c in ignored]
+        by_flag, by_map = order[::2], order[1::2]
+        config = {c: False for c in by_flag}
+        ns = Namespace({k: config.get(k, None) for k in diff_ignorables})
+        process_diff_flags(ns)
+        ign = {}
+        for c in by_map:
+            for p, v in IGNORE_KEYS[c].items():
+                ign[p] = (list(ign.get(p) or []) + v) if isinstance(v, list) else v
+        if ign:
+            set_notebook_diff_ignores(ign)
+        return
     if way == "positive":
         argv = ["-" + FLAG[c] for c in CATS if c not in ignored]
     elif way == "negative":
@@ -279,7 +296,12 @@ def configure(ignored, way, explicit_false):
                     if p not in ign:
                         ign[p] = False
         with open(cfgfile, "w") as f:
-            json.dump({"NbDiff": {"Ignore": ign}}, f)
+            if way == "config_split" and len(ign) >= 2:
+                # the mapping spread over a general and a specific section of the entry point (merged path by path)
+                ks = sorted(ign)
+                json.dump({"Diff": {"Ignore": {k: ign[k] for k in ks[::2]}}, "NbDiff": {"Ignore": {k: ign[k] for k in ks[1::2]}}}, f)
+            else:
+                json.dump({"NbDiff": {"Ignore": ign}}, f)
     saved = (sys.argv[:], os.getcwd(), dict(os.environ))
     os.environ["JUPYTER_CONFIG_DIR"] = os.path.join(d, "cfg")
     os.environ["JUPYTER_CONFIG_PATH"] = os.path.join(d, "cfg")
@@ -305,6 +327,8 @@ def ways_for(ignored):
         ws.append("positive")       # 'everything ignored' cannot be said with positive flags
     if not ignored:
         ws = ["positive", "config", "config_keys"]  # no negative flag at all = nothing configured
+    if len(ignored) >= 2:
+        ws += ["extension", "config_split"]
     return ws
 
 
